@@ -7,12 +7,12 @@ Local Open Scope Z_scope.
 (* The full statement one would like for polynomials: what Poly1Dom::write prints, Poly1Dom::read reads back. *)
 Definition Poly_write_read_stmt : Prop :=
   forall (var : list Z) (P : list Z),
-    fst (poly_read (elt_read (fun z => z)) (from_chars (poly_write var elt_write P)) 0) = setdegree P.
+    fst (poly_read (elt_read (fun z => z)) (from_chars (poly_write var elt_write P)) []) = setdegree P.
 
 (* It is refuted: 1 + 2 X is printed "1 + (2)*X"; the reader takes "1" as the degree and fails on "+". *)
 Lemma poly_write_read_refuted :
   exists (var P : list Z),
-    fst (poly_read (elt_read (fun z => z)) (from_chars (poly_write var elt_write P)) 0) <> setdegree P.
+    fst (poly_read (elt_read (fun z => z)) (from_chars (poly_write var elt_write P)) []) <> setdegree P.
 Proof. exists [88], [1; 2]. vm_compute. discriminate. Qed.
 
 Lemma poly_write_read_refuted' : ~ Poly_write_read_stmt.
